@@ -413,6 +413,11 @@ class Backend(ABC):
         if any([isinstance(arg.value, SigmaCasedString) for arg in args]):
             return False
 
+        # Parts of a timestamp (e.g. hour) need their own expression, the in-expression would
+        # compare the whole field with the numbers
+        if any([isinstance(arg.value, SigmaTimestampPart) for arg in args]):
+            return False
+
         # Check for plain strings if wildcards are not allowed for string expressions.
         if not self.in_expressions_allow_wildcards and any(
             [arg.value.contains_special() for arg in args if isinstance(arg.value, SigmaString)]
